@@ -954,6 +954,15 @@ func c08Scenarios(tier string, r *rand.Rand) []c08Scenario {
 		{Name: "trace-stale-takeover", Class: "traced", Trace: true, Pre: c08PreFile{Kind: "meta", CreatedAge: c08ms(90000), UpdatedAge: c08ms(30000)},
 			Threads: []c08Thread{{Tid: 0, Pid: 1, Name: n, StartAt: c08ms(200), HoldFor: c08ms(300), CancelAt: long}},
 			Horizon: c08ms(3000)},
+		// the context passed to Lock bounds the ACQUISITION only: it ends (deadline, `defer cancel()`) right
+		// after Lock returned, the hold goes on for more than 2 x interval with a contender waiting - the
+		// lock must stay the holder's (a heartbeat tied to that context would stop and the waiter steal it)
+		{Name: "holder-context-ends-after-acquisition", Class: "holder-ctx",
+			Threads: []c08Thread{{Tid: 0, Name: n, StartAt: 0, HoldFor: c08ms(12600), CancelAt: c08ms(1000)}, {Tid: 1, Pid: 1, Name: n, StartAt: c08ms(500), HoldFor: c08ms(200), CancelAt: long}},
+			Horizon: c08ms(15000)},
+		{Name: "holder-process-context-ends-after-acquisition", Class: "holder-ctx",
+			Threads: []c08Thread{{Tid: 0, Pid: 1, Name: n, StartAt: c08ms(200), HoldFor: c08ms(12600), CancelAt: c08ms(700)}, {Tid: 1, Name: n, StartAt: c08ms(500), HoldFor: c08ms(200), CancelAt: long}},
+			Horizon: c08ms(15000)},
 		{Name: "three-processes", Class: "multi-process",
 			Threads: []c08Thread{{Tid: 0, Pid: 1, Name: n, StartAt: c08ms(150), HoldFor: c08ms(600)}, {Tid: 1, Pid: 2, Name: n, StartAt: c08ms(350), HoldFor: c08ms(600), CancelAt: long},
 				{Tid: 2, Pid: 3, Name: n, StartAt: c08ms(550), HoldFor: c08ms(600), CancelAt: long}},
